@@ -24,11 +24,31 @@ structure Rx where
   tagGroups : List (String × Nat)
   attrGroups : List (String × Nat)
   piGroups : List (String × Nat)
+  defineRe : Re
+  substRe : Re
+  attrRe : Re
+  entityRe : Re
+  entity2Re : Re
+  bracesReq : Re
+  bracesOpt : Re
+  bracesReqGroups : List (String × Nat)
+  bracesOptGroups : List (String × Nat)
+  pipeSplit : Re
+  matchPrefix : Re
+  continuation : Re
+  i18nInterp : Re
+  reTrim : Re
+  reName : Re
 
 def Rx.live : Rx :=
   { xmlSpe := Gen.XML_SPE, tagPrefixName := Gen.TAG_PREFIX_NAME, singleAttr := Gen.SINGLE_ATTR, pi := Gen.PI,
     doubleHyphen := Gen.DOUBLE_HYPHEN, tagGroups := Gen.TAG_PREFIX_NAME_groups,
-    attrGroups := Gen.SINGLE_ATTR_groups, piGroups := Gen.PI_groups }
+    attrGroups := Gen.SINGLE_ATTR_groups, piGroups := Gen.PI_groups,
+    defineRe := Gen.DEFINE_RE, substRe := Gen.SUBST_RE, attrRe := Gen.ATTR_RE, entityRe := Gen.ENTITY_RE,
+    entity2Re := Gen.ENTITY2_RE, bracesReq := Gen.BRACES_REQ, bracesOpt := Gen.BRACES_OPT,
+    bracesReqGroups := Gen.BRACES_REQ_groups, bracesOptGroups := Gen.BRACES_OPT_groups,
+    pipeSplit := Gen.PIPE_SPLIT, matchPrefix := Gen.MATCH_PREFIX, continuation := Gen.CONTINUATION,
+    i18nInterp := Gen.I18N_INTERP, reTrim := Gen.RE_TRIM, reName := Gen.RE_NAME }
 
 def grpSpan (groups : List (String × Nat)) (st : St) (name : String) : Option (Nat × Nat) :=
   match groups.find? (·.1 == name) with
